@@ -4,7 +4,7 @@ CONSTANTS
   Modes = {"normal", "ValueError", "ZeroDivisionError", "NameError", "IndexError", "KeyError", "custom", "annotation"}
   MaxLen = 4
   ArgClasses = {"int", "negint", "float", "inf", "ninf", "nan", "str", "strq", "bool", "none", "list", "longlist", "nested", "tuple", "empty", "set", "longstr", "object", "bytes", "complex", "bigint", "range"}
-  Fns = {"ident", "describe", "mutate", "picky", "two", "alias_mutate"}
+  Fns = {"ident", "describe", "mutate", "picky", "two", "alias_mutate", "shadowing"}
 INVARIANT EquivPlain
 CONSTRAINT Export
 CONSTRAINT ExportCall
